@@ -44,13 +44,20 @@ def snap(x, depth=0):
     if tname == "EncodedArray":
         return ("EA", repr(x.encoding), snap(np.asarray(x.raw()), depth + 1))
     if tname in ("EncodedRaggedArray", "RaggedArray"):
+        # read the rows through the index structure WITHOUT calling ravel()/tolist() (those materialise a view in place and would
+        # heal exactly the state an in-place write needs)
         try:
-            lens = np.asarray(x.lengths)
-            flat = x.ravel()
-            raw = np.asarray(flat.raw() if hasattr(flat, "raw") else flat)
-            return (tname, repr(getattr(x, "encoding", None)), lens.tobytes(), raw.tobytes())
-        except Exception:
-            return (tname, repr(x.tolist()))
+            shape = x._shape
+            starts = np.asarray(shape.starts).ravel()
+            lens = np.asarray(shape.lengths).ravel()
+            d = getattr(x, "_data", None)
+            if d is None:
+                d = x.__dict__.get("_RaggedBase__data")
+            raw = np.asarray(d.raw() if hasattr(d, "raw") else d)
+            rows = tuple(raw[int(a):int(a) + int(l)].tobytes() for a, l in zip(starts, lens))
+            return (tname, repr(getattr(x, "encoding", None)), rows)
+        except Exception as e:
+            return (tname, "unsnappable:" + type(e).__name__)
     if tname == "StringArray":
         return ("SA", snap(np.asarray(x.raw()), depth + 1))
     if hasattr(x, "_itemgetter"):          # lazily read chunk: the raw buffer and its parsed/replaced stores
@@ -160,6 +167,10 @@ def run(ctx):
     # registry: name -> (argument factory, function)
     REG = {
         "strops.str_to_int": (lambda r: (enc(int_texts(r)),), lambda a: strops.str_to_int(a)),
+        "strops.str_to_int(view)": (lambda r: (enc(["7"] + int_texts(r) + ["-3", "+4"])[r.choice([slice(1, None), slice(None, None, -1), np.array([True] + [bool(i % 2) for i in range(8)])[:0] if False else slice(2, None)])],), lambda a: strops.str_to_int(a)),
+        "strops.str_to_float(view)": (lambda r: (enc(["1.0"] + float_texts(r) + ["-2.5"])[r.choice([slice(1, None), slice(None, None, -1)])],), lambda a: strops.str_to_float(a)),
+        "get_reverse_complement(view)": (lambda r: (enc(["ACG"] + dna_rows(r, "ACGTN") + ["TT"])[r.choice([slice(1, None), slice(None, None, -1)])],), lambda a: get_reverse_complement(a)),
+        "get_kmers(view)": (lambda r: (enc(["ACGTA"] + dna_rows(r) + ["ACGTAC"], ae.ACGTEncoding)[r.choice([slice(1, None), slice(None, None, -1)])],), lambda a: bnp.get_kmers(a, 3)),
         "strops.str_to_int(2d digits)": (lambda r: (enc(["%05d" % r.randint(0, 99999) for _ in range(3)]),), lambda a: strops.str_to_int(a)),
         "strops.str_to_float": (lambda r: (enc(float_texts(r)),), lambda a: strops.str_to_float(a)),
         "strops.str_to_int_with_missing": (lambda r: (enc(int_texts(r) + [".", ""]),), lambda a: strops.str_to_int_with_missing(a)),
@@ -225,8 +236,8 @@ def run(ctx):
         name = case["name"]
         make, fn = REG[name]
         args = make(r)
-        before = snap(args)
-        wit = {"entry": name, "seed": case["seed"], "args": result_repr(list(args))[:600]}
+        before = snap(args)            # (nothing else may look at the arguments before the call: decoding a view materialises it)
+        wit = {"entry": name, "seed": case["seed"], "args_snapshot": repr(before)[:600]}
         nt = (name, before) if len(repr(before)) > 120 else None
         res1 = call(name, fn, args, wit)
         after = snap(args)
@@ -305,6 +316,48 @@ def run(ctx):
             w1 = written()
             ctx.check("chunk-writes-same-bytes", w0 == w1, "lazy-chunk/%s/written-bytes-changed-by-field-access" % fname, "a %s chunk writes different bytes after its fields were read: %r vs %r" % (fname, w0[-120:], w1[-120:]),
                       dict(wit, before=w0.decode("latin1")[-500:], after=w1.decode("latin1")[-500:]), (nt, "w"))
+            # derived tables: a slice written, and a replace after an explicit assignment, must leave the chunk as it is
+            if len(chunk) >= 2 and fname not in ("fastq", "fasta2"):
+                a = r.randint(1, len(chunk) - 1)
+                child = chunk[a:]
+                pc = ctx.path("c20child" + fmt.suffix)
+                try:
+                    with bnp.open(pc, "w", buffer_type=bt) as f:
+                        f.write(child)
+                except Exception as e:
+                    if not originates_in_library(e):
+                        raise
+                chunk._computed_values.clear()
+                vals_after = {}
+                for f_ in fields:
+                    try:
+                        vals_after[f_] = result_repr(getattr(chunk, f_))
+                    except Exception as e:
+                        if not originates_in_library(e):
+                            raise
+                        vals_after[f_] = "raised:" + type(e).__name__
+                badf = [f_ for f_ in fields if vals_after[f_] != vals1[f_]]
+                ctx.check("chunk-unchanged-by-writing-a-slice", not badf, "lazy-chunk/%s/fields-changed-after-a-slice-of-it-was-written" % fname, "after writing chunk[%d:], fields %r of the chunk read differently: %r vs %r" % (a, badf, [vals_after[x][:60] for x in badf][:2], [vals1[x][:60] for x in badf][:2]),
+                          dict(wit, slice_start=a, fields=badf), (nt, "slice"))
+            int_fields = [f_ for f_ in fields if f_ in ("start", "stop", "position", "pos1", "size")]
+            if len(int_fields) >= 1 and len(chunk):
+                f1 = int_fields[0]
+                other = [f_ for f_ in fields if f_ != f1 and f_ in ("stop", "score", "pos2", "mapq", "summit", "start")]
+                try:
+                    setattr(chunk, f1, np.asarray(getattr(chunk, f1)) + 1)          # explicit attribute assignment (allowed to change the chunk)
+                    snap_set = dict((k, np.asarray(v).tolist()) for k, v in chunk._set_values.items())
+                    w_before = written()
+                    if other:
+                        derived = bnp.replace(chunk, **{other[0]: np.asarray(getattr(chunk, other[0])) + 5})
+                        snap_set2 = dict((k, np.asarray(v).tolist()) for k, v in chunk._set_values.items())
+                        w_after = written()
+                        ctx.check("chunk-unchanged-by-replace", snap_set == snap_set2 and w_before == w_after, "lazy-chunk/%s/replace-changed-the-table-it-was-called-on" % fname,
+                                  "bnp.replace(chunk, %s=...) changed the chunk itself (assigned fields %r -> %r)" % (other[0], sorted(snap_set), sorted(snap_set2)), dict(wit, assigned=f1, replaced=other[0]), (nt, "repl"))
+                except Exception as e:
+                    if not originates_in_library(e):
+                        raise
+                    ctx.observe("assign-then-replace-raised:%s:%s" % (fname, type(e).__name__))
+                chunk._set_values.clear()
             # parse again from a fresh handle on the same chunk object: same values
             chunk._computed_values.clear()
             vals2 = {}
